@@ -124,7 +124,6 @@ Fixpoint cut_eq (l : list byte) (acc : list byte) : option (list byte * list byt
 
 Inductive env_item :=
 | EnvSet (k v : list byte)       (* MPI_Info_set(new_info, key, val) *)
-| EnvSetNull (k : list byte)     (* "key=" : MPI_Info_set is called with val == NULL (MPI error) *)
 | EnvSkip.                       (* blank or ill-formed piece: skipped (with a warning) *)
 
 (* one ';'-separated piece.  The first strtok(hint, " \t") terminates the piece after its first
@@ -140,9 +139,8 @@ Definition env_piece (piece : list byte) : env_item :=
           match tokens is_eq_blank lhs with
           | [key] =>
               match tokens is_eq_blank rhs with
-              | [] => EnvSetNull key
               | [val] => EnvSet key val
-              | _ => EnvSkip
+              | _ => EnvSkip        (* no value ("key=", "key= v") or more than one token *)
               end
           | _ => EnvSkip
           end
@@ -168,16 +166,8 @@ Definition combine_env_hints (user : option info) (env : option (list byte)) : o
       fold_left (fun acc it =>
                    match it with
                    | EnvSet k v => Some (info_set k v (match acc with Some i => i | None => [] end))
-                   | EnvSetNull k => Some (match acc with Some i => i | None => [] end)
-                                     (* MPI_Info_create happened, the set itself fails *)
                    | EnvSkip => acc
                    end) (env_items s) user
-  end.
-
-Definition env_has_null_value (env : option (list byte)) : bool :=
-  match env with
-  | None => false
-  | Some s => existsb (fun it => match it with EnvSetNull _ => true | _ => false end) (env_items s)
   end.
 
 (* ================================================================== *)
